@@ -103,6 +103,26 @@ impl Property for C02 {
     fn max_shrink_iters(&self) -> u32 {
         12
     }
+    fn regressions(&self) -> Vec<Case> {
+        vec![
+            // known finding: split vote on the chain's first block before stabilisation
+            Case {
+                stakes: vec![2, 2, 1, 3, 2, 1],
+                crash_order: vec![219, 22],
+                byz_order: vec![250, 229],
+                turbine_fanout: None,
+                calm_start_ms: 0,
+                pre_gst_ms: 1296,
+                chaos_max_ms: 1036,
+                chaos_seed: 14805818166650063266,
+                post_delay_ms: 10,
+                windows_after: 5,
+                slow_node: None,
+                noisy: false,
+                seed: 16522751007686301335,
+            },
+        ]
+    }
     fn run(&self, case: &Case) -> Outcome {
         match catch(|| with_runtime(true, case.seed, run(case))) {
             Ok(o) => o,
